@@ -776,6 +776,7 @@ impl CstNode for Expr {
                 | EXPR_STRUCT_LITERAL
                 | EXPR_ARRAY_LITERAL
                 | EXPR_MATCH
+                | EXPR_IF
                 | EXPR_IDENT
                 | EXPR_TUPLE
                 | EXPR_PAREN
